@@ -159,6 +159,20 @@ fn one<B: Backend>(rep: &mut Report, kp: &KeyPair<B>, keylabel: &str, msg: &[u8]
             }
         }
     }
+    // the same round trip under payload types whose encoding has a suffix (ASCII, non-ASCII), now and then
+    if h % 7 == 0 && msg.len() <= 4096 {
+        for which in 0..2 {
+            let r = if which == 0 {
+                guard(|| sealer.seal_x(None, msg, footer, aad).and_then(|t| opener.open_x(&t, aad)).map(|(m, f)| m == msg && f == footer))
+            } else {
+                guard(|| sealer.seal_t(RawU(msg.to_vec()), footer.to_vec(), aad).and_then(|t| opener.open_t::<RawU, Vec<u8>>(&t, aad)).map(|(m, f, _)| m.0 == msg && f == footer))
+            };
+            if !matches!(r, Ok(Ok(true))) {
+                rep.violation(&format!("{sig_base}|suffixed-payload-type-does-not-round-trip"), detail(&format!("payload type with encoding suffix {}: {:?}", if which == 0 { "x" } else { "non-ASCII" }, r.map(|x| x.map_err(|e| err_kind(&e)))), &tok));
+            }
+        }
+        rep.count(&format!("{}.{}.suffixed-roundtrips", B::NAME, p.name()));
+    }
     rep.case(&class, h, true);
     rep.sample_class(&class, 1, || detail("ok", &tok));
 }
